@@ -144,3 +144,21 @@ Example log_live_rule_value :
   | None => false
   end = true.
 Proof. vm_compute. reflexivity. Qed.
+
+(** * the derivative at a zero weight (finding c03_fixed_point_empty_solution) *)
+(** X -> X a | b with a = 1/4, b = 0 (labels 0 = a, 1 = b, 2 = X): Z = 0, but dZ_k/db =
+    1 + a + ... + a^(k-1) (-> 4/3): the gradient of b is not zero; method fixed-point returns a
+    constant without autograd graph (b.grad is None) because its first iterate F(0) = b = 0
+    already passes the stopping test and the EMPTY MultiTensor is returned. *)
+Definition G_rec0 : grammar :=
+  {| g_doms := [2%nat];
+     g_labels := [(true, []); (true, []); (false, [])];
+     g_rules := [ {| r_lhs := 2%nat; r_nodes := []; r_edges := [(2%nat, []); (0%nat, [])]; r_ext := [] |};
+                  {| r_lhs := 2%nat; r_nodes := []; r_edges := [(1%nat, [])]; r_ext := [] |} ];
+     g_start := 2%nat |}.
+Definition W_rec0 : env (R:=ereal) := fun l _ => match l with 0%nat => quarter | _ => Fin nn0 end.
+Theorem zero_weight_derivative_witness :
+  eeqb (Zk ereal_ops G_rec0 W_rec0 3%nat 2%nat []) (Fin nn0) = true
+  /\ eeqb (grad_model ereal_ops G_rec0 W_rec0 1%nat [] 1%nat 2%nat []) (Fin nn1) = true
+  /\ eeqb (grad_model ereal_ops G_rec0 W_rec0 1%nat [] 3%nat 2%nat []) (Fin (nn_of_Q (21 # 16))) = true.
+Proof. vm_compute. repeat split. Qed.
